@@ -356,6 +356,12 @@ def _reverse_relationship(ctx: Ctx, env, um, fn):
         v = p.value
         key = "reverse_relationship"
         where = um.loc(fn)
+        from ..values import ObjV as _ObjV
+        if isinstance(v, _ObjV) and v.cls in env.repo.classes and "typing.NamedTuple" in env.repo.mro(v.cls):
+            # a NamedTuple unpacks and compares as the tuple of its fields, in declaration order
+            names = [st.target.id for st in env.repo.classes[v.cls].node.body if isinstance(st, ast.AnnAssign) and isinstance(st.target, ast.Name)]
+            if all(n in v.attrs for n in names):
+                v = PyTuple([v.attrs[n] for n in names])
         if not (isinstance(v, PyTuple) and len(v.items) == 2):
             ctx.fail("R5.reverse-relationship", key, f"returns {v!r}, not (reverse path, related model)", where)
             return
